@@ -90,7 +90,8 @@ def gen_cases(tier, seed):
     for s in space.shapes((1, 2), (1, 2, 3, 4, 5, 6, 7), 49 if T else 30):
         nd = len(s)
         for f in itertools.product((1, 2, 3, 4), repeat=nd):
-            shifts = [None] + [list(t) for t in itertools.product(*[range(min(fi, ni)) for fi, ni in zip(f, s)])]
+            # every start offset inside the axis, also >= the factor ("every f-th element from the shift")
+            shifts = [None] + [list(t) for t in itertools.product(*[range(ni) for ni in s])]
             for sft in shifts:
                 cases.append(dict(kind="resample", shape=list(s), factors=list(f), shift=sft))
     # ---- blocks
